@@ -15,10 +15,21 @@ Streams (correspondence = real code vs Lean model `Model/ObjModel` through Drive
   hasiter    DirectObjectAccess.has_iter vs hasIter (answer and: nothing is called)
   pyiter     CompiledValue.py__iter__ vs compiledPyIter ; bool: CompiledValue.py__bool__ {safe, unsafe} and
              DirectObjectAccess.py__bool__() (default = safe) vs pyBool
+  builtinbool access._has_builtin_bool(obj) vs hasBuiltinBoolMro on the class dictionaries of type(obj).__mro__
+             (per class: which of __bool__/__len__ it stores, classified) - container zoo + generated worlds
+             of classes with SEVERAL bases (gen.c13_graphs.gen_proto_mro: builtin container / number +
+             user mixins in every order, triples, grandchildren, own redefinitions)
+  boolmro    CompiledValue.py__bool__ {safe, unsafe} / DirectObjectAccess.py__bool__() vs pyBoolMro (the walk
+             over the MRO, CPython's bool(): __bool__ anywhere along the MRO first, then __len__)
+             + all item / iteration / bool unit streams above on the objects of those worlds
   e2e_attr   Interpreter(`obj.name`).infer(): set of user __get__ calls vs filterGetInfer trace
 Direct oracle (never the model)
   oracle     generated object graphs x expressions x {complete, infer, goto, help, get_signatures}
              x {safe, unsafe}: in safe mode no counter of a forbidden kind may move
+             flavor mro: the worlds of classes with several bases x queries whose inference needs the truth
+             value of the object (`q = obj or 1`, `and`, `if obj: ... else: ...`, `not obj`, ternary, while,
+             elif; complete on `q.`, infer/goto/help on `q`) and the reaching expressions, object named
+             directly or through box.a['k'][0]['name']
   dir        names offered after `obj.` >= dir(obj), both modes
   inferpath  infer on plain attribute / builtin container item paths = class of the stored object
   dunder     properties whose *name* is one jedi / inspect read themselves (__doc__, __module__, ...)
@@ -39,15 +50,22 @@ MANIFEST = dict(
          '__get__ calls), of jedi\'s getattr_static backport, is_allowed_getattr, the CompiledValueFilter._get '
          'decision table, values(), py__simple_getitem__/py__iter__list/has_iter/py__bool__ and the static '
          'special-method lookup they use; type lists, guard expressions and lookup orders are translator-extracted, '
-         'the shape of the hand-transcribed functions is translator-checked. Theorems (all FULL): the static lookup '
+         'the shape of the hand-transcribed functions is translator-checked. Theorems (all FULL except bool_mro_refines_flat_partial, whose hypothesis is a well-formedness condition of the '
+         'encoding, with counter-witness): the static lookup '
          'returns stored entries only and chooses the entry getattr chooses (instances and classes, including a '
          'metaclass data descriptor shadowing a class attribute); safe mode never produces a real name for a '
          'user-__get__ attribute of an instance, of a class/bases or of the metaclass; item access / py__iter__list '
          'only on listed builtin containers; has_iter + py__iter__list run no user code at all; safe py__bool__ '
-         'calls bool(obj) only when a builtin slot wrapper (or nothing) decides; names offered = dir(obj) exactly. '
+         'calls bool(obj) only when a builtin slot wrapper (or nothing) decides - also stated over the class '
+         'dictionaries of the whole MRO (hasBuiltinBoolMro / pyBoolMro: any number of bases in any order; the '
+         'nesting of the two loops of _has_builtin_bool and the order of the names are translator-extracted; the '
+         'classes-outer walk has a kernel-checked counter-witness, class R(list, Mixin) with Mixin.__bool__; '
+         'the MRO level refines the flattened one); names offered = dir(obj) exactly. '
          'The former counter-witness inputs are kernel-checked witnesses of the repaired behaviour. Tie: translator '
-         '+ 13 correspondence streams on generated live object graphs + direct oracle with counters inside every '
-         'user special method over all Interpreter query methods x {safe, unsafe}; the repaired defects are '
+         '+ 15 correspondence streams on generated live object graphs and on generated worlds of classes with several '
+         'bases (builtin container + mixins, every MRO order) + direct oracle with counters inside every '
+         'user special method over all Interpreter query methods x {safe, unsafe}, including truth-value queries '
+         '(or / and / if / not / while) on those worlds; the repaired defects are '
          'deterministic regression inputs (corpus/C13).',
     note='Modelled not verified: CPython descriptor protocol (validated by stream getattr), __getattribute__/'
          '__getattr__/__dir__/__class__ properties (outside the trace alphabet; counted by the oracle), metaclass '
@@ -1224,6 +1242,8 @@ def run(ctx):
         'None / other) is classified by the harness from the class dictionaries; special methods of builtin '
         'types are slot wrappers or absent (Ty.slot of `.builtin`): sampled by streams bool / hasiter on the '
         'container zoo',
+        'CPython bool(obj) on a class with several bases: __bool__ anywhere along the MRO, only then __len__ '
+        '(boolCallEventsMro): sampled by stream boolmro in unsafe mode (the counters of the real bool(obj))',
     ]
 
 
